@@ -28,7 +28,9 @@ func init() {
 			"writes, background compaction every second, one extra goroutine calling FlushImMemTables/TriggerCompaction; PRNG yields/sleeps at the hook sites between log append, memtable insert, " +
 			"memtable switch, rotation and flush publication. Every call is recorded at the client boundary (call/return from one monotonic clock) and the history is checked with porcupine, " +
 			"partitioned by key, against a register model with an 'absent' state; a write that returned an error is a no-op in the model (so a later read of its unique value makes the history " +
-			"illegal); a final read of every key pins 'exactly once'. Many short histories. distinct = hash of the per-key call/return event order; non-trivial = >= 1 pair of overlapping operations " +
+			"illegal); a final read of every key pins 'exactly once'. Many short histories. Every 9th case is an I/O-fault run instead ('a write that reports an error took no effect'): a child " +
+			"process runs a sequential put/delete/batch/transaction program with synchronous logging while strace -e inject fails chosen fsync(2)/write(2) calls on the database files with EIO/ENOSPC; it journals " +
+			"which units were acknowledged and which returned an error and dumps a full scan before closing; the scan before close and the scan after a reopen must equal the model of the acknowledged units only. distinct = hash of the per-key call/return event order; non-trivial = >= 1 pair of overlapping operations " +
 			"on one key and >= 1 rotation inside the history",
 		Assumptions: []string{"Close concurrent with other calls is out of scope", "porcupine timeout (20s per history) => inconclusive"},
 		NumCases: func(tier string) int {
@@ -298,6 +300,10 @@ func describeIllegal(ops []porcupine.Operation, info porcupine.LinearizationInfo
 }
 
 func runC06(c *core.Ctx, res *core.Result) {
+	if c.Idx%9 == 4 {
+		c06IOFault(c, res)
+		return
+	}
 	r := c.Rand
 	cfg := kv.Cfg{MemTableSize: []int64{1, 64, 300, 1024, 4096}[r.Intn(5)], MaxMemTables: r.Range(1, 4), SyncMode: []int{0, 0, 1, 2}[r.Intn(4)], CompactSecs: 1}
 	dir := filepath.Join(c.Dir, "db")
